@@ -186,6 +186,15 @@ Proof.
 Qed.
 Print Assumptions C05_flat_loaders.
 
+(* colours (effect shading parameters given as <color>): padded to RGBA - missing R, G, B read as 0,
+   a missing A as 1 - and otherwise untouched *)
+Theorem C05_colour_padding : forall c,
+  pad_color c = spec_color c /\
+  (length c <= 4 -> length (pad_color c) = 4) /\ (4 <= length c -> pad_color c = c) /\
+  firstn (length c) (pad_color c) = c.
+Proof. intro c. split; [apply pad_color_spec | apply pad_color_props]. Qed.
+Print Assumptions C05_colour_padding.
+
 (* nodes: Node.load's dispatching loop yields the node the file describes (ids, names defaulting to
    the id, transforms in order with kind and parameters, children in order), at every depth:
    [read_node] is the declarative reading (filter the children by tag, map) *)
